@@ -129,7 +129,10 @@ def _run_one(args):
         # properties): firing in the sharing property is not cross-fire
         shares = {'C10': ('C08', 'C15'), 'C08': ('C10', 'C15', 'C19'), 'C15': ('C10', 'C08'), 'C19': ('C11', 'C08'), 'C11': ('C19',),
                   'C03': ('C06',), 'C06': ('C03', 'C09'), 'C02': ('C16',), 'C16': ('C02',), 'C09': ('C06',), 'C14': ('C13',), 'C13': ('C14',), 'C17': ('C18',), 'C18': ('C17',)}
-        others = [p for p in res['fired'] if p != tgt and p not in m.get('also', []) and p not in shares.get(tgt, ())]
+        allowed = set(m.get('also', [])) | set(shares.get(tgt, ()))
+        for a in list(allowed):
+            allowed |= set(shares.get(a, ()))       # a declared double break extends to the properties sharing that rule
+        others = [p for p in res['fired'] if p != tgt and p not in allowed]
         if fired_tgt and (exp_rule is None or exp_rule in fired_tgt['rules']):
             res['status'] = 'caught' if not others else 'caught+crossfire'
         elif fired_tgt:
